@@ -24,6 +24,18 @@ def _mesa():
     return ms, core_ms
 
 
+class SourceBroke(Exception):
+    """raised by the iterable handed to extend / += (`lextendsrc`, `liaddsrc`) when it is asked for one item too many"""
+
+
+def failing_source(values, k):
+    """a generator that yields values[0..k) and raises when asked for the next one (k >= len(values): it just ends)"""
+    for i, v in enumerate(values):
+        if i == k:
+            raise SourceBroke(k)
+        yield v
+
+
 def err_of(e):
     for k, v in ERR.items():
         if isinstance(e, k):
@@ -188,8 +200,10 @@ class SigImpl:
                 del h, keepalive
 
     def on_notify(self, inst, name, old, new, typ, kw):
+        # `now` = what is behind the observable at the moment the signal is emitted (what a handler that looks at the
+        # real object while it is being notified sees)
         self.trace.append(("notify", int(name[1:]), typ, canon_val(old), canon_val(new), canon_idx(kw.get("index")),
-                           sorted(kw.keys())))
+                           sorted(kw.keys()), self.value(int(name[1:]))))
 
     # observations -------------------------------------------------------------------------
     def subs_snapshot(self):
@@ -279,6 +293,13 @@ class SigImpl:
                     x = getattr(inst, name)
                     x += parse_ints(w[2])
                     setattr(inst, name, x)
+                elif k == "liaddsrc":
+                    # `obj.lst += src` with an iterable that raises part-way: the assignment is not reached then
+                    x = getattr(inst, name)
+                    x += failing_source(parse_ints(w[2]), int(w[3]))
+                    setattr(inst, name, x)
+                elif k == "lextendsrc":
+                    getattr(inst, name).extend(failing_source(parse_ints(w[2]), int(w[3])))
                 else:
                     lst = getattr(inst, name)
                     if k == "lset":
@@ -309,6 +330,10 @@ class SigImpl:
                         lst.clear()
                     else:
                         raise AssertionError(w)
+        except SourceBroke:
+            # the exception of the iterable came out of extend / +=; what was delivered before it is part of the answer
+            self.trace.append(("done", "raised", self.subs_snapshot(), self.values()))
+            return " ".join(["raised"] + [":".join(map(str, r)) for r in self.out])
         except (ValueError, KeyError, IndexError, AttributeError) as e:
             res = err_of(e)
             self.trace.append(("done", res, self.subs_snapshot(), self.values()))
@@ -388,7 +413,8 @@ def gen_list_op(R, nm, shadow):
         return f"{oidx()} {oidx()} {R.choice(['N', '1', '2', '2', '3', '-1', '-1', '-2', '-3', '0'])}"
 
     k = R.choice(["lassign", "lset", "lsetslice", "ldel", "ldelslice", "linsert", "lappend", "lappend", "lpop", "lremove",
-                  "lextend", "liadd", "lreverse", "lclear", "lset", "ldel", "lpop", "lsetslicex", "ldelslicex"])
+                  "lextend", "liadd", "lreverse", "lclear", "lset", "ldel", "lpop", "lsetslicex", "ldelslicex",
+                  "lextendsrc", "liaddsrc"])
     if d is None and R.random() < 0.85:
         k = "lassign"
     if k == "lassign":
@@ -426,6 +452,11 @@ def gen_list_op(R, nm, shadow):
         return f"lextend {nm} {ints_arg(vals())}"
     if k == "liadd":
         return f"liadd {nm} {ints_arg(vals())}"
+    if k in ("lextendsrc", "liaddsrc"):
+        # extend / += from an iterable that raises after some items (mostly in the middle; sometimes at once / never)
+        vs = [val() for _ in range(R.choice([1, 2, 3, 3, 4]))]
+        at = R.randrange(1, len(vs)) if (len(vs) > 1 and R.random() < 0.7) else R.randrange(0, len(vs) + 2)
+        return f"{k} {nm} {ints_arg(vs)} {at}"
     return f"{k} {nm}"
 
 
@@ -465,6 +496,8 @@ def shadow_apply(shadow, line):
             d.remove(int(w[2]))
         elif k in ("lextend", "liadd"):
             d.extend(parse_ints(w[2]))
+        elif k in ("lextendsrc", "liaddsrc"):
+            d.extend(parse_ints(w[2])[:int(w[3])])
         elif k == "lreverse":
             d.reverse()
         elif k == "lclear":
@@ -671,7 +704,12 @@ def oracle_sig(sc, obs):
                     spec[(x, ty)] = []
         elif k == "drop":
             dead.add(int(w[1]))
-        if res != "ok" and k not in ("observe", "unobserve"):
+        if k in ("lextendsrc", "liaddsrc") and res in ("ok", "raised"):
+            # the exception of the iterable comes out of extend / += exactly when the iterable raised
+            breaks = int(w[3]) < len(parse_ints(w[2]))
+            if breaks != (res == "raised"):
+                bad.append(f"source-exception: `{ev[1]}` -> {res}, the iterable {'raised' if breaks else 'did not raise'}")
+        if res not in ("ok", "raised") and k not in ("observe", "unobserve"):
             # a rejected mutation: no signal, nothing changed
             if body:
                 bad.append(f"reject-signalled: rejected {ev[1]} emitted signals")
@@ -685,7 +723,7 @@ def oracle_sig(sc, obs):
                 bad.append(f"delivery-without-notify: {nt}")
                 p += 1
                 continue
-            _, n, ty, old, new, idx, keys = nt
+            _, n, ty, old, new, idx, keys, now = nt
             got = []
             p += 1
             while p < len(body) and body[p][0] in ("deliver", "act"):
@@ -717,8 +755,16 @@ def oracle_sig(sc, obs):
                     bad.append(f"replica: `{ev[1]}` signal {ty} old={old} new={new} index={idx}: {r}")
                 else:
                     replica[n] = r
-        # after the op the listener's copy equals the real state
-        if res == "ok":
+                    # a list mutator changes the list and then announces that one change: a listener that applies the
+                    # signal and then looks at the real list (a handler doing so while it is notified) sees its copy -
+                    # no item that has not been announced yet, none missing (`change` is emitted before the new list is
+                    # stored: nothing to compare at that moment)
+                    if ty != "change" and now != fmt_ints(r):
+                        bad.append(f"replica-at-delivery: when `{ev[1]}` emitted {ty} new={new} old={old} index={idx} the "
+                                   f"real list {n} was {now}, the listener's copy after applying it {fmt_ints(r)}")
+        # after the op the listener's copy equals the real state - also when the iterable handed to extend / += raised
+        # part-way: the items taken from it before are in the list, and each of them has been announced
+        if res in ("ok", "raised"):
             if k == "set":
                 obsval[int(w[1])] = w[2]
                 if after_vals[int(w[1])] != w[2]:
@@ -796,6 +842,8 @@ def tags_sig(sc, obs):
         yield "op:" + w[0]
         if o.startswith("err"):
             yield "reject:" + w[0] + ":" + o.split()[1]
+        if o.startswith("raised"):
+            yield "branch:iterable-raised-after-" + ("no" if w[3] == "0" else "some") + "-items"
         if w[0] in ("observe", "unobserve"):
             yield f"{w[0]}:{'All' if w[1] == '*' else 'name'}/{'All' if w[2] == '*' else 'type'}"
         if o.startswith("ok ") and w[0] not in ("subs", "get"):
